@@ -767,7 +767,7 @@ class ODFWriter:
         href = self.doc.addPicture(img_path)
         innerframe.addElement(draw.Image(href=href))
 
-        if obj.is_inline():
+        if obj.is_inline() and not obj.render_caption:  # a gallery image is "inline" but has a caption
             return SkipChildren(innerframe)  # FIXME something else formatting?
         else:
             innerframe.setAttribute("anchortype", "paragraph")
